@@ -2,9 +2,24 @@
 #include "env/common.h"
 #include "env/stubs_base.h"
 #include "types.h"
+#include "spec/hmac.h"
+#if defined(H_aggr_calc_v2) || defined(H_aggr_calc_v1)
+#define C06_AGGR_CALC
+#define C06_CALC_STUBS
+#endif
+#if defined(H_ext_calc_v2) || defined(H_ext_calc_v1)
+#define C06_EXT_CALC
+#define C06_CALC_STUBS
+#endif
 #include "env/c06_pdu.h"
+#include "types_base.c"
+#ifdef H_verifyHmac
 #include "contracts/types_pdu_hmac.h"
+#endif
 #include "types.c"
+#ifndef H_verifyHmac
+#include "contracts/types_pdu_hmac.h"     /* these contracts mention the PDU structs that types.c defines */
+#endif
 
 #ifdef H_verifyHmac
 void harness(void) {
@@ -20,5 +35,93 @@ void harness(void) {
 	if (res == KSI_HMAC_MISMATCH) REACH("MAC mismatch");
 	if (res == KSI_HMAC_ALGORITHM_MISMATCH) REACH("algorithm mismatch");
 	if (res != KSI_OK && g_vh_calc_out != NULL) REACH("error with a computed MAC to release");
+}
+#endif
+
+#if defined(C06_AGGR_CALC) || defined(C06_EXT_CALC)
+/* The PDU is built concretely from static objects: every optional element present or absent, received raw bytes
+ * present or absent.  v2 jobs: raw length arbitrary (the bytes are only handed on); v1 job: lengths <= C06_SER_MAX. */
+#ifdef C06_SER_MAX
+#define RAWCAP C06_SER_MAX
+#else
+#define RAWCAP 1
+#endif
+static KSI_OctetString o_pdu, o_hdr, o_req, o_resp;
+static unsigned char b_pdu[RAWCAP], b_hdr[RAWCAP], b_req[RAWCAP], b_resp[RAWCAP];
+static KSI_OctetString *mk_raw(KSI_OctetString *o, unsigned char *buf) {
+	if (nondet_bool()) return NULL;
+	o->data = buf;
+	o->data_len = nondet_size();
+#ifdef C06_SER_MAX
+	if (o->data_len > C06_SER_MAX) o->data_len = C06_SER_MAX;
+#endif
+	return o;
+}
+#ifdef C06_AGGR_CALC
+#define PDU_T KSI_AggregationPdu
+#define REQ_T KSI_AggregationReq
+#define RESP_T KSI_AggregationResp
+#define VER_OPT KSI_OPT_AGGR_PDU_VER
+#define CALC KSI_AggregationPdu_calculateHmac
+#else
+#define PDU_T KSI_ExtendPdu
+#define REQ_T KSI_ExtendReq
+#define RESP_T KSI_ExtendResp
+#define VER_OPT KSI_OPT_EXT_PDU_VER
+#define CALC KSI_ExtendPdu_calculateHmac
+#endif
+static KSI_CTX s_ctx; static PDU_T s_pdu; static KSI_Header s_hdr; static REQ_T s_req; static RESP_T s_resp;
+static KSI_Config s_conf;
+#ifdef C06_AGGR_CALC
+static KSI_RequestAck s_ack;
+#endif
+void harness(void) {
+	KSI_CTX *ctx = nondet_bool() ? &s_ctx : NULL;
+	PDU_T *pdu = nondet_bool() ? &s_pdu : NULL;
+	KSI_DataHash *out = nondet_ptr(), *out0 = out;
+	const char *key = nondet_ptr();
+	KSI_HashAlgorithm alg = (KSI_HashAlgorithm)nondet_int();
+	int res;
+	size_t ver = nondet_size();
+#if defined(H_aggr_calc_v2) || defined(H_ext_calc_v2)
+	if (ver == KSI_PDU_VERSION_1) ver = KSI_PDU_VERSION_2;
+#else
+	if (ver == KSI_PDU_VERSION_2) ver = KSI_PDU_VERSION_1;
+#endif
+	s_ctx.options[VER_OPT] = ver;
+	if (pdu != NULL) {
+		pdu->ctx = ctx;
+		pdu->header = nondet_bool() ? &s_hdr : NULL;
+		s_hdr.ctx = ctx; s_hdr.raw = mk_raw(&o_hdr, b_hdr);
+		pdu->request = NULL; pdu->response = NULL; pdu->confRequest = NULL; pdu->confResponse = NULL;
+		pdu->error = NULL; pdu->hmac = nondet_ptr();
+#ifdef C06_AGGR_CALC
+		pdu->ackRequest = NULL; pdu->ackResponse = NULL;
+#endif
+		/* well-formed direction: request-side elements or response-side elements, never both */
+		if (nondet_bool()) {
+			if (nondet_bool()) { pdu->request = &s_req; s_req.raw = mk_raw(&o_req, b_req); }
+			if (nondet_bool()) pdu->confRequest = &s_conf;
+#ifdef C06_AGGR_CALC
+			if (nondet_bool()) pdu->ackRequest = &s_ack;
+#endif
+		} else {
+			if (nondet_bool()) { pdu->response = &s_resp; s_resp.raw = mk_raw(&o_resp, b_resp); }
+			if (nondet_bool()) pdu->confResponse = &s_conf;
+#ifdef C06_AGGR_CALC
+			if (nondet_bool()) pdu->ackResponse = &s_ack;
+#endif
+		}
+		pdu->raw = mk_raw(&o_pdu, b_pdu);
+	}
+	g_hl = nondet_uint();
+	g_mac_wit = nondet_size();
+	res = CALC(pdu, alg, key, nondet_bool() ? &out : NULL);
+	if (res == KSI_OK) REACH("MAC computed");
+	if (res == KSI_OK && pdu->raw != NULL) REACH("MAC over the received bytes");
+	if (res == KSI_OK && pdu->raw == NULL && pdu->response != NULL) REACH("MAC over a serialized response PDU");
+	if (res == KSI_OK && pdu->raw == NULL && pdu->confRequest != NULL) REACH("MAC over a serialized configuration request PDU");
+	if (res != KSI_OK && g_ser_calls > 0) REACH("error after serialization");
+	if (res == KSI_OK) free(out);          /* the caller owns the result (for --memory-leak-check) */
 }
 #endif
